@@ -88,6 +88,14 @@ def judge_numeric(cases: list[NumCase], rep: Report) -> None:
         if impl[0] == "err" and impl[1] in SKIP_ERRS:
             c.verdict = "skip:" + impl[1]
             continue
+        if c.info.get("int_exact") and (aq[0] == "ok" or aq[1] in ("domain", "missing", "usage")):
+            # CPython computes these nodes on ints, exactly (common.int_exact): the exact instance binds
+            if same_outcome(impl, aq):
+                c.verdict = "match"
+            else:
+                c.verdict = "mismatch"
+                c.detail = f"implementation {impl!r} vs exact arithmetic {b[c.iq]} (all operands are Python ints)"
+            continue
         if impl[0] == "ok" and not is_real_number(impl[1]):
             # NaN / inf / complex / non-number: never acceptable unless the run left the range
             if af[0] == "ok" and out_of_range(af[1]):
